@@ -3,6 +3,9 @@
 // Explicit-state search on the real BarnettSmartVTMF_dlog object (the key-set machine): events
 //   A j      KeyGenerationProtocol_UpdateKey with player j's honest contribution (only while j is absent)
 //   X j m    UpdateKey with player j's contribution under mutation m (catalogue below)           -> must be refused
+//   D j      UpdateKey with the contribution of a player whose key is already stored (duplicate delivery / replay; at most one
+//            per history): either verdict; a refusal must change nothing, an acceptance must either change nothing or multiply
+//            exactly that key in once more (the reference then carries the extra factor)
 //   R j      KeyGenerationProtocol_RemoveKey with player j's contribution (present or absent)
 //   U        RemoveKey of a never-seen key                                                        -> must be refused
 //   F        KeyGenerationProtocol_Finalize followed by one mask/open round on the final key
@@ -111,7 +114,7 @@ struct Ev { char k; int j, m; };
 static std::string ev_str(const Ev &e) { char b[32]; snprintf(b, sizeof b, "%c%d.%d", e.k, e.j, e.m); return b; }
 static std::string hist_str(const std::vector<Ev> &h) { std::string r; for (size_t i = 0; i < h.size(); i++) r += (i ? " " : "") + ev_str(h[i]); return r; }
 
-struct Model { std::set<int> present; bool finalized; bool own_echo; };
+struct Model { std::set<int> present; std::set<int> extra; bool finalized; bool own_echo; };   // extra: keys that are in h one more time than in the key map (accepted duplicate)
 
 struct Live {
 	BarnettSmartVTMF_dlog *v;
@@ -137,6 +140,8 @@ static void expect_h(const Setup &S, Live &L, const std::string &when)
 	if (L.ref.own_echo) mpz_mul(want, want, L.v->h_i), mpz_mod(want, want, S.p);
 	for (std::set<int>::iterator i = L.ref.present.begin(); i != L.ref.present.end(); ++i)
 		mpz_mul(want, want, S.others[*i].hj), mpz_mod(want, want, S.p);
+	for (std::set<int>::iterator i = L.ref.extra.begin(); i != L.ref.extra.end(); ++i)
+		mpz_mul(want, want, S.others[*i].hj), mpz_mod(want, want, S.p);
 	if (mpz_cmp(want, L.v->h) && L.fail.empty())
 		L.fail = "common key h differs from h_own * product of accepted keys " + when;
 	if (L.v->KeyGenerationProtocol_NumberOfKeys() != L.ref.present.size() + (L.ref.own_echo ? 1 : 0) && L.fail.empty())
@@ -157,6 +162,17 @@ static void apply(const Setup &S, Live &L, const Ev &e, uint64_t seed)
 			expect = true;
 			ret = L.v->KeyGenerationProtocol_UpdateKey(in);
 			if (ret) L.ref.present.insert(e.j);
+		}
+		else if (e.k == 'D')
+		{
+			// the SAME valid contribution of a player whose key is already stored arrives once more (duplicate delivery, replay).
+			// The property does not say whether it is accepted; three behaviours satisfy it and the reference follows the one it
+			// sees: refused and nothing changes; accepted and nothing changes (idempotent); accepted and the key is multiplied in
+			// once more (what the pinned library does - the key map still holds it once, a later removal divides once).
+			std::stringstream in(S.others[e.j].key + "\n" + S.others[e.j].c + "\n" + S.others[e.j].r + "\n");
+			ret = L.v->KeyGenerationProtocol_UpdateKey(in);
+			expect = ret;
+			if (ret && canon(L) != before) L.ref.extra.insert(e.j);
 		}
 		else if (e.k == 'O')
 		{
@@ -264,6 +280,7 @@ static void explore(const Setup &S, const std::string &cell, uint64_t seed, size
 		for (size_t j = 0; j < k; j++)
 		{
 			if (!cur->ref.present.count(j)) en.push_back(Ev{'A', (int)j, 0});
+			else if (cur->ref.extra.empty()) en.push_back(Ev{'D', (int)j, 0});   // at most one duplicate per history keeps the space finite
 			en.push_back(Ev{'R', (int)j, 0});
 			for (int m = 0; m < NMUT; m++) en.push_back(Ev{'X', (int)j, m});
 		}
@@ -281,7 +298,7 @@ static void explore(const Setup &S, const std::string &cell, uint64_t seed, size
 			if (en[i].k == 'X' || en[i].k == 'U') refused++;
 			if (!L->fail.empty())
 			{
-				R->viol(std::string("keyset/") + (en[i].k == 'A' ? "add" : en[i].k == 'O' ? "own-echo" : en[i].k == 'X' ? std::string("accepts-malformed/") + MUTNAME[en[i].m] : en[i].k == 'R' ? "remove" : en[i].k == 'U' ? "remove-unknown" : "finalize"),
+				R->viol(std::string("keyset/") + (en[i].k == 'A' ? "add" : en[i].k == 'D' ? "duplicate" : en[i].k == 'O' ? "own-echo" : en[i].k == 'X' ? std::string("accepts-malformed/") + MUTNAME[en[i].m] : en[i].k == 'R' ? "remove" : en[i].k == 'U' ? "remove-unknown" : "finalize"),
 					L->fail + " ; history: " + hist_str(h2), cell);
 				delete L->v; delete L;
 				R->counters["states"] += states, R->counters["transitions"] += transitions;
@@ -291,6 +308,8 @@ static void explore(const Setup &S, const std::string &cell, uint64_t seed, size
 			// differential oracle: the state is a function of the accepted set (add-then-remove == never added)
 			std::string skey;
 			for (std::set<int>::iterator q = L->ref.present.begin(); q != L->ref.present.end(); ++q) skey += str(*q) + ",";
+			skey += "x";
+			for (std::set<int>::iterator q = L->ref.extra.begin(); q != L->ref.extra.end(); ++q) skey += str(*q) + ",";
 			skey += L->ref.finalized ? "F" : "-";
 			skey += L->ref.own_echo ? "O" : "-";
 			if (state_of_set.count(skey) && state_of_set[skey] != c)
@@ -342,6 +361,45 @@ static void make_setup(Setup &S, int kind, size_t k, unsigned long psize, unsign
 	mcenv::cur = nullptr;
 }
 
+// The largest admissible game: TMCG_MAX_PLAYERS - 1 other players.  No branching here (2^31 subsets): every ROTATION of the
+// processing order and the reversed order; every contribution must be accepted, the key must equal the product after every
+// step, and removing all keys again (in another rotation) must lead back to the own key.
+static void maxplayers(const Setup &S, const std::string &cell, uint64_t seed)
+{
+	const size_t k = S.others.size();
+	uint64_t transitions = 0;
+	for (size_t rot = 0; rot <= k; rot++)
+	{
+		Live *L = new Live();
+		L->v = make_instance(S, seed);
+		L->ref.finalized = false, L->ref.own_echo = false;
+		std::vector<Ev> h;
+		for (size_t s = 0; s < k && L->fail.empty(); s++)
+		{
+			size_t j = rot == k ? k - 1 - s : (s + rot) % k;
+			h.push_back(Ev{'A', (int)j, 0});
+			apply(S, *L, h.back(), seed);
+			transitions++;
+			R->ok(true);
+		}
+		for (size_t s = 0; s < k && L->fail.empty(); s++)
+		{
+			size_t j = (s + 2 * rot + 7) % k;
+			h.push_back(Ev{'R', (int)j, 0});
+			apply(S, *L, h.back(), seed);
+			transitions++;
+			R->ok(true);
+		}
+		if (L->fail.empty() && mpz_cmp(L->v->h, L->v->h_i)) L->fail = "after removing every key the common key is not the own key";
+		if (!L->fail.empty())
+			R->viol("keyset/maxplayers", L->fail + " ; history: " + hist_str(h), cell);
+		delete L->v; delete L;
+	}
+	R->counters["transitions"] += transitions, R->counters["traces_validated_against_impl"] += transitions;
+	R->counters["states"] += (k + 1) * 2 * k;
+	R->sample(cell, str(k) + " other players: " + str(k + 1) + " processing orders (every rotation and the reversed order), add all, remove all");
+}
+
 int main(int argc, char **argv)
 {
 	Args A = parse(argc, argv);
@@ -366,7 +424,16 @@ int main(int argc, char **argv)
 				make_setup(S, kind, k, psize, kind == 2 ? qsize : qsize, seed);
 				explore(S, cell, seed, k + 4);
 			}
-	rep.bound = th ? "k<=5 others, depth k+4, 17 mutations per contribution" : "k<=3 others, depth k+4, 17 mutations per contribution";
+	for (int kind = 0; kind < 3; kind++)
+	{
+		std::string cell = std::string("maxplayers:") + KN[kind] + ",k=" + str(TMCG_MAX_PLAYERS - 1);
+		if (!rep.mine() || !rep.selected(cell)) continue;
+		if (rep.out_of_time()) break;
+		Setup S;
+		make_setup(S, kind, TMCG_MAX_PLAYERS - 1, 384, 192, seed);
+		maxplayers(S, cell, seed);
+	}
+	rep.bound = th ? "k<=5 others, depth k+4, 18 mutations per contribution, one duplicate per history; 31 others: every rotation of the order" : "k<=3 others, depth k+4, 18 mutations per contribution, one duplicate per history; 31 others: every rotation of the order";
 	rep.nontrivial = rep.counters["states"];
 	rep.finish();
 	return 0;
